@@ -307,7 +307,7 @@ pub fn run(args: &Args) -> i32 {
     }
 
     let bfs_depth: usize = std::env::var("VERIF_C04_BFS").ok().and_then(|s| s.parse().ok()).unwrap_or(args.tier.pick(4, 6));
-    let lock_depth: usize = std::env::var("VERIF_C04_LOCK").ok().and_then(|s| s.parse().ok()).unwrap_or(args.tier.pick(2, 3));
+    let lock_depth: usize = std::env::var("VERIF_C04_LOCK").ok().and_then(|s| s.parse().ok()).unwrap_or(args.tier.pick(3, 4));
 
     // ---- (a) BFS with exact deduplication on Storage<MemoryStorage>
     let visited: Mutex<HashSet<(u64, u64)>> = Mutex::new(HashSet::new());
